@@ -37,8 +37,28 @@ func (x IntsList) MarshalJSON() ([]byte, error) {
 	return json.Marshal([][]int(x))
 }
 
+// ipatIn mirrors spec/Ip.tla: an IPv4 pattern (single address, inclusive range, CIDR prefix).
+type ipatIn struct {
+	K    string `json:"k"` // addr | range | cidr
+	Lo   []int  `json:"lo"`
+	Hi   []int  `json:"hi"`
+	Bits int    `json:"bits"`
+}
+
+func (p *ipatIn) text() string {
+	a := func(x []int) string { return fmt.Sprintf("%d.%d.%d.%d", x[0], x[1], x[2], x[3]) }
+	switch p.K {
+	case "range":
+		return a(p.Lo) + "-" + a(p.Hi)
+	case "cidr":
+		return a(p.Lo) + "/" + strconv.Itoa(p.Bits)
+	}
+	return a(p.Lo)
+}
+
 type predIn struct {
-	T     string          `json:"t"` // m | num | dur | bytes | and | or | paren
+	T     string          `json:"t"` // m | num | dur | bytes | ip | and | or | paren
+	Ipat  *ipatIn         `json:"ipat,omitempty"`
 	Label Ints            `json:"label"`
 	Op    string          `json:"op"`
 	Val   Ints            `json:"val"` // m: value bytes; num/dur/bytes: [n, d]
@@ -96,6 +116,7 @@ type stageIn struct {
 	Labels IntsList        `json:"labels"`
 	Txt    Ints            `json:"txt"` // raw: stage text given verbatim (C06/C07 families)
 	IP     bool            `json:"ip"`  // line: the needle is an ip("...") matcher (single address, range or CIDR prefix)
+	Ipat   *ipatIn         `json:"ipat,omitempty"` // its IPv4 pattern, when the specification is to interpret it
 }
 
 type logqIn struct {
@@ -121,6 +142,8 @@ func (p *predIn) text() string {
 		return S(p.Label) + opText[p.Op] + quoteLogQL(S(p.Val))
 	case "num", "dur", "bytes":
 		return S(p.Label) + " " + cmpText[p.Op] + " " + S(p.Lit)
+	case "ip":
+		return S(p.Label) + " " + map[string]string{"eq": "==", "neq": "!="}[p.Op] + " ip(" + quoteLogQL(S(p.Val)) + ")"
 	case "paren":
 		return "(" + p.A.text() + ")"
 	case "and":
@@ -580,6 +603,9 @@ func genLogq(r *rand.Rand, mode string) logqIn {
 		in.Stages = append(in.Stages, st)
 	}
 	in.Caps = []CapsIn{{Label: []string{}, Line: []string{}}, {Label: allOps, Line: allOps}, {Label: randSubset(r), Line: randSubset(r)}}
+	if mode == "select" && r.Intn(8) == 0 {
+		genIPCase(r, &in)
+	}
 	if mode == "limit" {
 		in.Recs = genRecs(r, n, r.Intn(2) == 0)
 		// label values that collide in an unquoted / unsorted stream key
@@ -688,6 +714,54 @@ func genFilterStage(r *rand.Rand) stageIn {
 		p.Val = B(pick(r, wildRegexes))
 	}
 	return stageIn{T: "label", Pred: p}
+}
+
+var ipPats = []ipatIn{
+	{K: "addr", Lo: []int{10, 0, 0, 1}, Hi: []int{10, 0, 0, 1}, Bits: 32}, {K: "addr", Lo: []int{10, 0, 0, 9}, Hi: []int{10, 0, 0, 9}, Bits: 32},
+	{K: "addr", Lo: []int{255, 255, 255, 255}, Hi: []int{255, 255, 255, 255}, Bits: 32},
+	{K: "range", Lo: []int{10, 0, 0, 1}, Hi: []int{10, 0, 0, 3}}, {K: "range", Lo: []int{10, 0, 0, 9}, Hi: []int{10, 0, 1, 0}},
+	{K: "range", Lo: []int{0, 0, 0, 0}, Hi: []int{9, 255, 255, 255}}, {K: "range", Lo: []int{10, 0, 0, 2}, Hi: []int{10, 0, 0, 2}},
+	{K: "cidr", Lo: []int{10, 0, 0, 0}, Hi: []int{10, 0, 0, 0}, Bits: 8}, {K: "cidr", Lo: []int{10, 0, 0, 5}, Hi: []int{10, 0, 0, 5}, Bits: 30},
+	{K: "cidr", Lo: []int{10, 0, 0, 0}, Hi: []int{10, 0, 0, 0}, Bits: 31}, {K: "cidr", Lo: []int{0, 0, 0, 0}, Hi: []int{0, 0, 0, 0}, Bits: 0},
+	{K: "cidr", Lo: []int{10, 0, 0, 1}, Hi: []int{10, 0, 0, 1}, Bits: 32}, {K: "cidr", Lo: []int{192, 168, 0, 0}, Hi: []int{192, 168, 0, 0}, Bits: 16},
+	{K: "cidr", Lo: []int{10, 0, 0, 0}, Hi: []int{10, 0, 0, 0}, Bits: 7}, {K: "cidr", Lo: []int{10, 0, 0, 8}, Hi: []int{10, 0, 0, 8}, Bits: 29},
+	{K: "cidr", Lo: []int{10, 0, 1, 0}, Hi: []int{10, 0, 1, 0}, Bits: 23},
+}
+
+// genIPCase turns a case into one about ip("...") filters over IPv4: lines and a label `ip` without colons and without
+// the letters a-f (the domain in which the specification transcribes the scanner), one or two ip stages.
+func genIPCase(r *rand.Rand, in *logqIn) {
+	lines := []string{"10.0.0.1", "x 10.0.0.2 y", "10.0.0.1 10.0.0.9", "no host", "host=10.0.0.3 to=192.168.1.7", "", "300.1.1.1", "1234.1.1.1", "10.0.0.1.5",
+		"1.2.3", "10.0.0.4.", "7.7.7.7x", "[10.0.0.4]", "10.0.0.01", "0.0.0.0 255.255.255.255", "10.0.1.0", "9.255.255.255 11.0.0.0", "10.0.1.255 10.0.2.0",
+		"12 10.0.0.8", "1.10.0.0.7", "..10.0.0.6", "10.0.0.3,10.0.0.5", "7", "10.0.0"}
+	vals := []string{"10.0.0.1", "10.0.0.9", "192.168.1.7", "junk", "", "10.0.0.300", "10.0.0.2", "10.0.1.0", "11.0.0.0", " 10.0.0.1", "10.0.0.1 "}
+	for i := range in.Recs {
+		in.Recs[i].Line, in.Recs[i].Doc = B(pick(r, lines)), [][2][]int{}
+		in.Recs[i].Attrs = [][2][]int{}
+		if r.Intn(4) != 0 {
+			in.Recs[i].Attrs = append(in.Recs[i].Attrs, [2][]int{B("ip"), B(pick(r, vals))})
+		}
+	}
+	in.Sel = []matcherIn{}
+	eps, _ := json.Marshal(&ReAST{T: "eps"})
+	ipStage := func() stageIn {
+		p := ipPats[r.Intn(len(ipPats))]
+		op := []string{"eq", "neq"}[r.Intn(2)]
+		if r.Intn(2) == 0 {
+			return stageIn{T: "line", Op: op, Val: B(p.text()), Re: eps, IP: true, Ipat: &p}
+		}
+		pr := &predIn{T: "ip", Label: B("ip"), Op: op, Val: B(p.text()), Ipat: &p, Re: eps}
+		if r.Intn(4) == 0 {
+			q := ipPats[r.Intn(len(ipPats))]
+			pr = &predIn{T: []string{"and", "or"}[r.Intn(2)], A: &predIn{T: "paren", A: pr},
+				B: &predIn{T: "paren", A: &predIn{T: "ip", Label: B("ip"), Op: []string{"eq", "neq"}[r.Intn(2)], Val: B(q.text()), Ipat: &q, Re: eps}}}
+		}
+		return stageIn{T: "label", Pred: pr}
+	}
+	in.Stages = []stageIn{ipStage()}
+	if r.Intn(3) == 0 {
+		in.Stages = append(in.Stages, ipStage())
+	}
 }
 
 func negStage(st stageIn) stageIn {
